@@ -247,6 +247,23 @@ def break_gposdev_search(ctx, shim, r, nfonts, per_font, pc, pt):
                        classify=GF.gposdev_known_class)
 
 
+def break_syllabic_search(ctx, shim, r, nfonts, per_font, pc, pt):
+    """`break-safety-syllabic` (added after the seeded change C03e): tools/syllabic.py"""
+    import syllabic as SY
+    topo, mfl = SY.registered(ctx, "use-topographical"), SY.registered(ctx, "reordered-ligature")
+    comp = SY.registered(ctx, "normalizer-all-simple")
+    groups = SY.feature_groups(shim, r, nfonts, topographical=topo, mark_first_ligatures=mfl, composites=comp)
+    ctx.cov["break_syllabic_fonts"] = {k: sum(1 for g in groups if g["kind"] == k) for k in sorted({g["kind"] for g in groups})}
+    ctx.cov["break_syllabic_domain"] = {"topographical_features": topo, "mark_first_ligatures": mfl, "composite_letters": comp,
+                                        "note": "fonts with isol/init/medi/fina under USE resp. ligatures starting with a mark "
+                                                "resp. precomposed letters only when the finding classes use-topographical / reordered-ligature / "
+                                                "normalizer-all-simple are registered in known_findings.json"}
+    metamorphic_search(ctx, shim, r, per_font, pc, pt, False, "break-safety-syllabic", F.verify_break, [0, 0, pc, pc | pt],
+                       "breaking at unflagged cluster starts changes the result",
+                       SY.RULE + "then as break-safety-ot: cut at ALL unflagged cluster starts, re-shape the pieces, concatenate, compare",
+                       groups=groups, make=lambda r, g, fl, k: SY.make_shaping(r, g, fl), classify=SY.known_class)
+
+
 def gsub_flag_groups(ctx, shim, r, nfonts, per_font):
     """request groups of the `gsub` command (the GSUB interpreter of the crate through its hook vs the Lean model Gsub.lean,
     which contains every unsafe_to_break / unsafe_to_concat call site of the interpreter and delete_glyph / merge_clusters of
@@ -343,6 +360,13 @@ def run(ctx):
         "the crate by gpos-value-worked / gpos-pair-flags (hooks gpos::pair_records_apply_to_pos, gpos::apply_subtable_flags) and "
         "the regenerated probe table behind C03_gen_value_worked; SinglePos needs no flag (one glyph); MarkBasePos, CursivePos and "
         "the kern / kerx machines are not modelled here (C07 models their arithmetic); through shape(): break-safety-gposdev",
+        "break-safety-syllabic (generated fonts for the Indic / Khmer / Myanmar / Universal shapers, tools/syllabic.py): the search "
+        "domain leaves out three font traits that lead to behaviour shared with HarfBuzz and not yet registered as finding classes — "
+        "isol / init / medi / fina features under the Universal shaper (setup_topographical_masks flags nothing), ligatures whose first "
+        "glyph is a mark (a reordered pre-base vowel sign ligated with its base loses UNSAFE_TO_BREAK in merge_clusters) and letters "
+        "with a canonical decomposition (the normalizer recomposes only when some cluster has a mark: all_simple); each is generated "
+        "again, and attributed, as soon as known_findings.json has the class use-topographical / reordered-ligature / "
+        "normalizer-all-simple (coverage key break_syllabic_domain says which are on)",
         "that every shaping step which makes two clusters interdependent calls unsafe_to_break over a span covering what it "
         "inspected (the ~40 call sites) is not proved; it is searched by the break-safety verifier through shape() "
         "(partial, as DESIGN.md §5 C03 says); OpenType and AAT fonts are separate streams",
@@ -376,6 +400,7 @@ def run(ctx):
     break_gposdev_search(ctx, shim, ctx.rng("break-gposdev"), ctx.budget(160, 3000), 12, pc, pt)
     break_fraction_search(ctx, shim, ctx.rng("break-fraction"), ctx.budget(20, 300), ctx.budget(20, 60), pc, pt)
     break_di_search(ctx, shim, ctx.rng("break-di"), ctx.budget(150, 3000), 16, pc, pt)
+    break_syllabic_search(ctx, shim, ctx.rng("break-syllabic"), ctx.budget(240, 4000), 16, pc, pt)
     break_stch_search(ctx, shim, ctx.rng("break-stch"), ctx.budget(100, 2000), 12, pc, pt)
     break_search(ctx, shim, ctx.rng("break-ot"), ctx.budget(60, 1200), pc, pt, False, "break-safety-ot")
     break_search(ctx, shim, ctx.rng("break-aat"), ctx.budget(150, 4000), pc, pt, True, "break-safety-aat")
